@@ -40,7 +40,7 @@ fn nonce_pattern(i: usize, len: usize) -> Vec<u8> {
 
 macro_rules! chacha {
     ($o:expr, $ty:ty, $name:expr, $layout:expr, $dr:expr, $nl:expr, $long:expr) => {{
-        let mut pos: Vec<u64> = vec![0, 1, 63, 64, 65, 255, 256, 257, (1 << 32) - 1, 1 << 32, (1 << 38) - 1031, (1 << 38) - 65, (1 << 38) - 64];
+        let mut pos: Vec<u64> = vec![0, 1, 63, 64, 65, 255, 256, 257, (1 << 32) - 1, 1 << 32, (1 << 38) - 1031, (1 << 38) - 65, (1 << 38) - 64, (1 << 38) - 128, (1 << 38) - 192, (1 << 38) - 256, (1 << 38) - 320];
         if $layout != Layout::Ietf {
             pos.extend_from_slice(&[1 << 38, (1 << 38) + 1, (1 << 40) + 7, 1 << 63, u64::MAX - 1031, u64::MAX - 64]);
         }
